@@ -55,7 +55,7 @@ import (
 
 const (
 	sizeChildEnv  = "C08_SIZE_CHILD"
-	sizeCPULimit  = 6 * time.Second  // CPU time one probe may burn before it is called a hang (no probe needs 1 s)
+	sizeCPULimit  = 10 * time.Second // CPU time one probe may burn before it is called a hang (no probe needs 1 s)
 	sizeWallLimit = 60 * time.Second // a probe blocked without burning CPU (lock taken twice, channel never written)
 )
 
@@ -194,7 +194,9 @@ func sizeProbes(seed uint64, thorough bool) []sizeProbe {
 		strProbe("bech32.Decode", "n 'q' characters", n, rp(n, "q"), strings.Repeat("q", n), dec)
 		add("bech32.Encode", "n data symbols", n, func() (budget, func() interface{}, func() bool) {
 			d := bytesOf(31, n)
-			return budget{n: n}, func() interface{} { return map[string]interface{}{"hrp": "a", "data": fmt.Sprintf("bytesOf(31, %d)", n)} },
+			return budget{n: n}, func() interface{} {
+					return map[string]interface{}{"hrp": "a", "data": fmt.Sprintf("bytesOf(31, %d)", n)}
+				},
 				func() bool { _, err := bech32.Encode("a", d); return err == nil }
 		})
 		add("bech32.Encode", "hrp of n letters", n, func() (budget, func() interface{}, func() bool) {
@@ -428,7 +430,7 @@ func jsonSizeProbes(thorough bool) []sizeProbe {
 	// ---- wide arrays (every element kind), wide objects, long streams
 	widths := []int{255, 256, 257, 1000, 65536}
 	if thorough {
-		widths = append(widths, 65535, 65537, 300000)
+		widths = append(widths, 65535, 65537, 131072)
 	}
 	quickWide := map[string]bool{"strings": true, "objects": true} // 2^16 elements in the quick tier: these kinds only
 	elems := []struct {
@@ -450,6 +452,9 @@ func jsonSizeProbes(thorough bool) []sizeProbe {
 			n := n
 			if n > 5000 && !thorough && !quickWide[e.name] {
 				continue
+			}
+			if n > 100000 && !(e.name == "strings" || e.name == "numbers" || e.name == "nulls") {
+				continue // a 131072-element document of the heavier kinds costs seconds in encoding/json + protobuf alone
 			}
 			list := func() string { return strings.TrimSuffix(strings.Repeat(e.lit+",", n), ",") }
 			docProbe("array of n "+e.name, n, fmt.Sprintf(`{"hashes":[L],"inputs":[L],"outputs":[L]} with L = n x %s, n = %d`, e.lit, n),
@@ -481,7 +486,7 @@ func jsonSizeProbes(thorough bool) []sizeProbe {
 			return sb.String()
 		}
 		docProbe("object with n distinct keys", n, fmt.Sprintf(`{"k0":"ab","k1":"ab",...,"k%d":"ab"}`, n-1), keys)
-		if n > 5000 && !thorough {
+		if n > 5000 && !thorough || n > 100000 {
 			continue
 		}
 		docProbe("object with n distinct keys under a real field", n, fmt.Sprintf(`{"transaction":{"k0":"ab",...,"k%d":"ab"},"inputs":[{...same...}]}`, n-1),
@@ -594,7 +599,9 @@ func wireSizeProbes(r *vh.RNG, thorough bool) []sizeProbe {
 				tx, err := bchutil.NewTxFromBytes(raw)
 				fatal(err)
 				fl := fullFilter(8)
-				return budget{n: len(raw) + 17}, func() interface{} { return map[string]interface{}{"filter": "eight 0xff bytes, 1 hash function, tweak 0, BloomUpdateAll", "tx": desc(raw)()} }, func() bool {
+				return budget{n: len(raw) + 17}, func() interface{} {
+					return map[string]interface{}{"filter": "eight 0xff bytes, 1 hash function, tweak 0, BloomUpdateAll", "tx": desc(raw)()}
+				}, func() bool {
 					f := bloom.LoadFilter(cloneFL(fl))
 					m := f.MatchTxAndUpdate(tx)
 					_ = f.MatchTxAndUpdate(tx)
